@@ -489,6 +489,40 @@ func wListener(iters int) {
 			c.Close()
 		}
 		cmu.Unlock()
+		// the listener and its LAST connection closed at the same time from two goroutines (also the last two connections
+		// after the listener), several times: the final-close decision is taken on both sides
+		for rep := 0; rep < 6; rep++ {
+			l2, err := lc.Listen("udp", &net.UDPAddr{IP: net.IPv4(127, 0, 0, 1)})
+			if err != nil {
+				panic(err)
+			}
+			var acc []net.Conn
+			var cls []*net.UDPConn
+			for i := 0; i < 1+rep%2; i++ {
+				cl, _ := net.DialUDP("udp", nil, l2.Addr().(*net.UDPAddr))
+				cl.Write([]byte("hello"))
+				c, err := l2.Accept()
+				if err != nil {
+					panic(err)
+				}
+				acc = append(acc, c)
+				cls = append(cls, cl)
+			}
+			var cw sync.WaitGroup
+			start := make(chan struct{})
+			for _, c := range acc {
+				cw.Add(1)
+				go func(c net.Conn) { defer cw.Done(); <-start; c.Close() }(c)
+			}
+			cw.Add(1)
+			go func() { defer cw.Done(); <-start; l2.Close() }()
+			close(start)
+			cw.Wait()
+			for _, cl := range cls {
+				cl.Close()
+			}
+			op()
+		}
 	}
 }
 
